@@ -40,6 +40,7 @@ var Families = map[string]func(t *testing.T, seed int64, steps int) *Cluster{
 	"phases":      famPhases,
 	"transferhang": famTransferHang,
 	"notifyshort": famNotifyShort,
+	"fastpathrace": famFastPathRace,
 	"transferstuck": famTransferStuck, // not in any plan: kept as a scenario, the defect it was written for needs a rarer trigger (see DESIGN 7.16)
 }
 
@@ -343,6 +344,7 @@ func famLifecycle(t *testing.T, seed int64, steps int) *Cluster {
 func famNotify(t *testing.T, seed int64, steps int) *Cluster {
 	opt := DefaultOptions(seed)
 	opt.Family = "notify"
+	opt.HBFast = seed%4 == 1
 	if seed%3 == 0 {
 		opt.NotifyBuf = 0
 	} else {
@@ -383,6 +385,7 @@ func famElect(t *testing.T, seed int64, steps int) *Cluster {
 	opt := DefaultOptions(seed)
 	opt.Family = "elect"
 	opt.KeepMinorityDown = seed%2 == 0
+	opt.HBFast = seed%5 == 2 // heartbeats handled on the transport's goroutine, concurrently with the run loop
 	if seed%3 == 0 {
 		opt.Servers = []string{"n1", "n2", "n3", "n4", "n5"}
 		opt.Initial = map[string]string{"n1": "V", "n2": "V", "n3": "V", "n4": "V", "n5": "V"}
